@@ -220,7 +220,22 @@ func mutateJSON(rt *rapid.T, valid []byte) ([]byte, string) {
 		desc = "top-level-non-object"
 	} else {
 		n := nodes[rapid.IntRange(0, len(nodes)-1).Draw(rt, "node")]
-		switch rapid.IntRange(0, 9).Draw(rt, "jmut") {
+		switch rapid.IntRange(0, 11).Draw(rt, "jmut") {
+		case 10, 11:
+			// a numeric element (big integers first) gets a JSON number that is legal JSON but no integer literal
+			var numeric []map[string]any
+			for _, x := range nodes {
+				if ty, _ := x["type"].(string); ty == "BigInteger" {
+					numeric = append(numeric, x, x, x)
+				} else if ty == "Integer" || ty == "LongInteger" || ty == "Enumeration" || ty == "Interval" || ty == "DateTime" || ty == "Boolean" {
+					numeric = append(numeric, x)
+				}
+			}
+			if len(numeric) > 0 {
+				n = numeric[rapid.IntRange(0, len(numeric)-1).Draw(rt, "numnode")]
+			}
+			n["value"] = json.Number(rapid.SampledFrom([]string{"17.0", "1.7e1", "1E400", "-0.5", "1e2", "0.0", "1.5", "-1e-3", "12345678901234567890.0", "1e19"}).Draw(rt, "numform"))
+			desc = "number-not-integer-literal"
 		case 0:
 			n["type"] = rapid.SampledFrom([]any{"Foo", "", "structure", json.Number("1"), nil, true, []any{}}).Draw(rt, "badtype")
 			desc = "type-unknown"
